@@ -25,14 +25,16 @@ macro_rules! kproof_calls {
         #[kani::stub(::anyhow::__private::format_err, $mode_fe)]
         #[kani::stub(std::time::Instant::now, crate::util::stub_instant_now)]
         #[kani::stub(std::sync::Mutex::lock, crate::util::stub_mutex_lock)]
+        #[kani::stub(blots_core::functions::FunctionDef::call, crate::util::stub_function_def_call_small_builtins)]
         pub fn $name() $body
     };
 }
 
-/// `map(l, f)` / `filter(l, f)` exactly as the evaluator's Call arm invokes them: FunctionDef::call on
-/// the higher-order built-in, with the function value as an argument
+/// `map(l, f)` / `filter(l, f)`: the higher-order built-in's own implementation
+/// (`BuiltInFunction::call` on a constant selector), with the function value as an argument; its
+/// callbacks go through `FunctionDef::call`, i.e. through the family's stub
 fn map_like(hof: B, l: Value, f: B, heap: &std::rc::Rc<std::cell::RefCell<blots_core::heap::Heap>>) -> Result<Value, blots_core::error::RuntimeError> {
-    blots_core::functions::FunctionDef::BuiltIn(hof).call(Value::BuiltIn(hof), crate::av![l, Value::BuiltIn(f)], heap.clone(), arena::env(), 0, "")
+    hof.call(crate::av![l, Value::BuiltIn(f)], heap.clone(), arena::env(), 0, "")
 }
 
 fn lists_same(a: Value, b: Value, heap: &std::rc::Rc<std::cell::RefCell<blots_core::heap::Heap>>) -> bool {
@@ -42,49 +44,53 @@ fn lists_same(a: Value, b: Value, heap: &std::rc::Rc<std::cell::RefCell<blots_co
     }
 }
 
-/// `[a, b] via f`  ==  `map([a, b], f)` for a one-argument built-in
+/// `[a, b] via f`  ==  `map([a, b], f)`  ==  the expected list, for a built-in callee.
+/// One form per path (symbolic choice): both forms in one path end in CBMC `Status: ERROR` after
+/// 20 min; agreement follows from both being equal to the same expected list.
 macro_rules! c13_via_map {
     ($name:ident, $f:expr, $want:expr) => {
-        kproof_calls!(crate::util::stub_anyhow_msg_panic, crate::util::stub_anyhow_format_err_panic, 5, fn $name() {
+        kproof_calls!(crate::util::stub_anyhow_msg_cut, crate::util::stub_anyhow_format_err_cut, 5, fn $name() {
             let (a, b): (f64, f64) = (kani::any(), kani::any());
             let l = arena::list_cell(vec![Value::Number(a), Value::Number(b)]);
             let heap = arena::heap();
-            let e1 = arena::binop(BinaryOp::Via, arena::list2(num(a), num(b)), Expr::BuiltIn($f));
-            let r1 = evaluate_ast(&e1, heap.clone(), arena::env(), 0, src());
-            // map(list, f) as the call `map(l, f)` reaches it: FunctionDef::call on the built-in map
-            let r2 = map_like(B::Map, l, $f, &heap);
-            match (r1, r2) {
-                (Ok(v1), Ok(v2)) => {
-                    assert!(lists_same(v1, v2, &heap));
-                    let want: fn(f64, f64) -> (Value, Value) = $want;
-                    let (w0, w1) = want(a, b);
-                    match read_list(v1, &heap) {
+            let via_form: bool = kani::any();
+            let r = if via_form {
+                let e1 = arena::binop(BinaryOp::Via, arena::list2(num(a), num(b)), Expr::BuiltIn($f));
+                let r = evaluate_ast(&e1, heap.clone(), arena::env(), 0, src());
+                std::mem::forget(e1);
+                r
+            } else {
+                map_like(B::Map, l, $f, &heap)
+            };
+            match r {
+                Ok(v) => {
+                    let (w0, w1): (Value, Value) = ($want)(a, b); // called in place: no `fn` pointer (DESIGN 2(13))
+                    match read_list(v, &heap) {
                         Some((2, el)) => assert!(same_value(el[0], w0) && same_value(el[1], w1)),
-                        _ => panic!("via: wrong shape"),
+                        _ => panic!("via / map: wrong shape"),
                     }
                 }
-                _ => panic!("via / map failed on numbers"),
+                Err(_) => panic!("via / map failed on numbers"),
             }
-            kani::cover!(true, "reach-end");
-            std::mem::forget(e1);
+            kani::cover!(via_form, "reach the end in the via form");
+            kani::cover!(!via_form, "reach the end in the map form");
             std::mem::forget(heap);
         });
     };
 }
-c13_via_map!(c13_q_via_map_abs, B::Abs, |a, b| (Value::Number(a.abs()), Value::Number(b.abs())));
+c13_via_map!(c13_q_via_map_abs, B::Abs, |a: f64, b: f64| (Value::Number(a.abs()), Value::Number(b.abs())));
 // a built-in that accepts a second argument receives the 0-based index: min(x, i)
-c13_via_map!(c13_q_via_map_min_gets_index, B::Min, |a, b| (Value::Number(f64::INFINITY.min(a).min(0.0)), Value::Number(f64::INFINITY.min(b).min(1.0))));
-c13_via_map!(c13_t_via_map_floor, B::Floor, |a, b| (Value::Number(a.floor()), Value::Number(b.floor())));
+c13_via_map!(c13_q_via_map_min_gets_index, B::Min, |a: f64, b: f64| (Value::Number(f64::INFINITY.min(a).min(0.0)), Value::Number(f64::INFINITY.min(b).min(1.0))));
+c13_via_map!(c13_t_via_map_floor, B::Floor, |a: f64, b: f64| (Value::Number(a.floor()), Value::Number(b.floor())));
 
-/// `x into f` == `f(x)`
+/// `x into f` == `f(x)` (application = the built-in's implementation on the same argument)
 kproof_calls!(crate::util::stub_anyhow_msg_panic, crate::util::stub_anyhow_format_err_panic, 5, fn c13_q_into_is_application() {
     let a: f64 = kani::any();
     let heap = arena::heap();
     let e1 = arena::binop(BinaryOp::Into, num(a), Expr::BuiltIn(B::Abs));
-    let e2 = arena::call(Expr::BuiltIn(B::Abs), arena::args1(num(a)));
-    match (evaluate_ast(&e1, heap.clone(), arena::env(), 0, src()), evaluate_ast(&e2, heap.clone(), arena::env(), 0, src())) {
+    match (evaluate_ast(&e1, heap.clone(), arena::env(), 0, src()), B::Abs.call(crate::av![Value::Number(a)], heap.clone(), arena::env(), 0, "")) {
         (Ok(v1), Ok(v2)) => assert!(same_value(v1, v2) && same_value(v1, Value::Number(a.abs()))),
-        _ => panic!("into / call failed"),
+        _ => panic!("into / application failed"),
     }
     // a list on the left is passed whole: [a, a] into len == 2
     let e3 = arena::binop(BinaryOp::Into, arena::list2(num(a), num(a)), Expr::BuiltIn(B::Len));
@@ -93,31 +99,37 @@ kproof_calls!(crate::util::stub_anyhow_msg_panic, crate::util::stub_anyhow_forma
         Err(_) => panic!("list into len failed"),
     }
     kani::cover!(true, "reach-end");
-    std::mem::forget((e1, e2, e3));
+    std::mem::forget((e1, e3));
     std::mem::forget(heap);
 });
 
-/// `[p, q] where to_bool` == `filter([p, q], to_bool)` (elements kept in order)
-kproof_calls!(crate::util::stub_anyhow_msg_panic, crate::util::stub_anyhow_format_err_panic, 5, fn c13_q_where_filter_to_bool() {
+/// `[p, q] where to_bool` == `filter([p, q], to_bool)` == the `true` elements, in order (one form per path)
+kproof_calls!(crate::util::stub_anyhow_msg_cut, crate::util::stub_anyhow_format_err_cut, 5, fn c13_q_where_filter_to_bool() {
     let (p, q): (bool, bool) = (kani::any(), kani::any());
     let l = arena::list_cell(vec![Value::Bool(p), Value::Bool(q)]);
     let heap = arena::heap();
-    let e1 = arena::binop(BinaryOp::Where, arena::list2(Expr::Bool(p), Expr::Bool(q)), Expr::BuiltIn(B::ToBool));
-    match (evaluate_ast(&e1, heap.clone(), arena::env(), 0, src()), map_like(B::Filter, l, B::ToBool, &heap)) {
-        (Ok(v1), Ok(v2)) => {
-            assert!(lists_same(v1, v2, &heap));
-            match read_list(v1, &heap) {
-                Some((n, el)) => {
-                    assert!(n == p as usize + q as usize);
-                    if n > 0 { assert!(same_value(el[0], Value::Bool(true))); }
-                }
-                None => panic!("where: not a list"),
+    let where_form: bool = kani::any();
+    let r = if where_form {
+        let e1 = arena::binop(BinaryOp::Where, arena::list2(Expr::Bool(p), Expr::Bool(q)), Expr::BuiltIn(B::ToBool));
+        let r = evaluate_ast(&e1, heap.clone(), arena::env(), 0, src());
+        std::mem::forget(e1);
+        r
+    } else {
+        map_like(B::Filter, l, B::ToBool, &heap)
+    };
+    match r {
+        Ok(v) => match read_list(v, &heap) {
+            Some((n, el)) => {
+                assert!(n == p as usize + q as usize);
+                if n > 0 { assert!(same_value(el[0], Value::Bool(true))); }
+                if n > 1 { assert!(same_value(el[1], Value::Bool(true))); }
             }
-        }
-        _ => panic!("where / filter failed on booleans"),
+            None => panic!("where / filter: not a list"),
+        },
+        Err(_) => panic!("where / filter failed on booleans"),
     }
-    kani::cover!(p && !q, "reach a mixed list");
-    std::mem::forget(e1);
+    kani::cover!(where_form && p && !q, "reach the end in the where form on a mixed list");
+    kani::cover!(!where_form && !p && q, "reach the end in the filter form on a mixed list");
     std::mem::forget(heap);
 });
 
@@ -162,8 +174,7 @@ kproof_calls!(crate::util::stub_anyhow_msg_panic, crate::util::stub_anyhow_forma
     let el = arena::list_cell(vec![]);
     let heap = arena::heap();
     let e1 = arena::binop(BinaryOp::Into, arena::list0(), Expr::BuiltIn(B::Len));
-    let e2 = arena::call(Expr::BuiltIn(B::Len), arena::args1(arena::list0()));
-    match (evaluate_ast(&e1, heap.clone(), arena::env(), 0, src()), evaluate_ast(&e2, heap.clone(), arena::env(), 0, src())) {
+    match (evaluate_ast(&e1, heap.clone(), arena::env(), 0, src()), B::Len.call(crate::av![el], heap.clone(), arena::env(), 0, "")) {
         (Ok(v1), Ok(v2)) => assert!(same_value(v1, v2) && same_value(v1, Value::Number(0.0))),
         _ => panic!("[] into len failed"),
     }
@@ -173,6 +184,27 @@ kproof_calls!(crate::util::stub_anyhow_msg_panic, crate::util::stub_anyhow_forma
         _ => panic!("[] via abs failed"),
     }
     kani::cover!(true, "reach-end");
-    std::mem::forget((e1, e2, e3));
+    std::mem::forget((e1, e3));
     std::mem::forget(heap);
 });
+
+/// every / some are the conjunction / disjunction of the predicate's results (predicate to_bool,
+/// which succeeds on every boolean)
+macro_rules! c13_quantifier {
+    ($name:ident, $hof:expr, $want:expr) => {
+        kproof_calls!(crate::util::stub_anyhow_msg_cut, crate::util::stub_anyhow_format_err_cut, 5, fn $name() {
+            let (p, q): (bool, bool) = (kani::any(), kani::any());
+            let l = arena::list_cell(vec![Value::Bool(p), Value::Bool(q)]);
+            let heap = arena::heap();
+            match map_like($hof, l, B::ToBool, &heap) {
+                Ok(v) => assert!(same_value(v, Value::Bool(($want)(p, q)))),
+                Err(_) => panic!("every / some failed on booleans"),
+            }
+            kani::cover!(p && !q, "reach the end on a mixed list");
+            kani::cover!(!p && !q, "reach the end on an all-false list");
+            std::mem::forget(heap);
+        });
+    };
+}
+c13_quantifier!(c13_t_every_is_conjunction, B::Every, |p: bool, q: bool| p && q);
+c13_quantifier!(c13_t_some_is_disjunction, B::Some, |p: bool, q: bool| p || q);
